@@ -1,6 +1,7 @@
 (* MapperRegs.v — C06, the I/O registers under arbitrary bus histories:
    - registers that only their own address can change (TAC, TMA, SCY, SCX, LYC, BGP, OBP0, OBP1, WY, WX, LCDC, DMA,
-     IE) read back [readback r v] for the last byte v written, which for bytes is (v & writable) | ones;
+     IE) read back [readback r v] for the last byte v written, which for bytes is (v & writable) | ones
+     (AddrSpec.reg_masks; OBP0 / OBP1 included since "fix: OBP0 and OBP1 read back all eight bits");
    - IF: E0 | written[4:0], the hardware only ever adds bits;  STAT: 80 | written[6:3] | read-only status;
    - JOYP: C0 | written[5:4] | button lines;  LY and DIV: a write makes them read 0, whatever was written. *)
 From Coq Require Import ZArith ZifyN ZifyNat ZifyBool.
@@ -91,14 +92,12 @@ Definition lcdc_byte (v : N) : N :=
   u8 ((if tb v 0x80 then 0x80 else 0) + (if tb v 0x40 then 0x40 else 0) + (if tb v 0x20 then 0x20 else 0)
       + (if tb v 0x10 then 0x10 else 0) + (if tb v 0x08 then 0x08 else 0) + (if tb v 0x04 then 0x04 else 0)
       + (if tb v 0x02 then 0x02 else 0) + (if tb v 0x01 then 0x01 else 0)).
-Definition obp_byte (v : N) : N := u8 (u8 (shl8 (two v 6) 6 + shl8 (two v 4) 4) + shl8 (two v 2) 2).
 
 Definition readback (r : ioreg) (v : N) : N :=
   match r with
   | R_TAC => N.lor v 248
   | R_LCDC => lcdc_byte v
-  | R_BGP => pal_byte (mkPal (N.land v 3) (two v 2) (two v 4) (two v 6))
-  | R_OBP0 | R_OBP1 => obp_byte v
+  | R_BGP | R_OBP0 | R_OBP1 => pal_byte (mkPal (N.land v 3) (two v 2) (two v 4) (two v 6))
   | _ => v
   end.
 
@@ -124,22 +123,15 @@ Proof.
   unfold reg_read, reg_write. sysf. unfold ppu_read_lcdc. rewrite lcdc_enabled, lcdc_flags. reflexivity.
 Qed.
 
-(* the implementation's masks: as AddrSpec.reg_masks, except that OBP0 / OBP1 keep only bits 7-2 *)
-Definition impl_masks (r : ioreg) : option (N * N) :=
-  match r with
-  | R_OBP0 | R_OBP1 => Some (0xFC, 0x00)
-  | _ => reg_masks r
-  end.
-
 Definition readback_check (v : N) : bool :=
   (readback R_TAC v =? N.lor (N.land v 0x07) 0xF8) && (readback R_LCDC v =? v) && (readback R_BGP v =? v)
-  && (readback R_OBP0 v =? N.land v 0xFC).
+  && (readback R_OBP0 v =? v).
 
 Lemma readback_sweep : forallb readback_check bytes = true.
 Proof. vm_compute. reflexivity. Qed.
 
 Lemma readback_masks r v wm ones :
-  stable_reg r = true -> impl_masks r = Some (wm, ones) -> v < 256 -> readback r v = N.lor (N.land v wm) ones.
+  stable_reg r = true -> reg_masks r = Some (wm, ones) -> v < 256 -> readback r v = N.lor (N.land v wm) ones.
 Proof.
   intros Hr Hm Hv. pose proof (sweep_bytes _ readback_sweep v Hv) as S. unfold readback_check in S.
   apply andb_true_iff in S. destruct S as (S & S4). apply andb_true_iff in S. destruct S as (S & S3).
@@ -147,13 +139,13 @@ Proof.
   apply N.eqb_eq in S1, S2, S3, S4.
   assert (Eff : N.lor (N.land v 255) 0 = v).
   { rewrite N.lor_0_r. change 255 with (N.ones 8). rewrite N.land_ones. apply N.mod_small. exact Hv. }
-  destruct r; try discriminate Hr; cbn [impl_masks reg_masks] in Hm; injection Hm as <- <-;
+  destruct r; try discriminate Hr; cbn [reg_masks] in Hm; injection Hm as <- <-;
     change 0xFF with 255; change 0x00 with 0; rewrite ?Eff; try reflexivity.
   - exact S1.
   - exact S2.
   - exact S3.
-  - rewrite N.lor_0_r. exact S4.
-  - rewrite N.lor_0_r. exact S4.
+  - exact S4.
+  - exact S4.
 Qed.
 
 (* ---- histories ---- *)
@@ -183,7 +175,7 @@ Qed.
 
 (* statement-level: the register table *)
 Theorem register_masks r s h s' v wm ones :
-  stable_reg r = true -> impl_masks r = Some (wm, ones) ->
+  stable_reg r = true -> reg_masks r = Some (wm, ones) ->
   forallb wf_bop h = true -> bus_run s h = Ok s' -> last_written (reg_addr r) h = Some v -> v < 256 ->
   peek s' (reg_addr r) = Ok (N.lor (N.land v wm) ones).
 Proof.
@@ -430,56 +422,9 @@ Proof.
   change 0xFF01 with (reg_addr R_SB). change 0xFF02 with (reg_addr R_SC). rewrite !peek_reg. split; reflexivity.
 Qed.
 
-(* ---- the register table of the specification (AddrSpec.reg_masks) ---- *)
-Definition register_masks_statement : Prop :=
-  forall r s h s' v wm ones,
-    stable_reg r = true -> reg_masks r = Some (wm, ones) ->
-    forallb wf_bop h = true -> bus_run s h = Ok s' -> last_written (reg_addr r) h = Some v -> v < 256 ->
-    peek s' (reg_addr r) = Ok (N.lor (N.land v wm) ones).
-
-Definition obp_check (v : N) : bool := negb (N.land v 3 =? 0) || (N.land v 0xFC =? N.land v 0xFF).
-Lemma obp_sweep : forallb obp_check bytes = true.
-Proof. vm_compute. reflexivity. Qed.
-
-(* ... holds for every register of the table and every written byte, except writes to OBP0 / OBP1 whose two low
-   bits are not both 0 *)
-Theorem register_masks_partial r s h s' v wm ones :
-  stable_reg r = true -> reg_masks r = Some (wm, ones) ->
-  (r = R_OBP0 \/ r = R_OBP1 -> N.land v 3 = 0) ->
-  forallb wf_bop h = true -> bus_run s h = Ok s' -> last_written (reg_addr r) h = Some v -> v < 256 ->
-  peek s' (reg_addr r) = Ok (N.lor (N.land v wm) ones).
-Proof.
-  intros Hr Hm Hobp Hwf Hrun Hl Hv.
-  assert (Ho : forall x, x = r -> (x = R_OBP0 \/ x = R_OBP1) ->
-               peek s' (reg_addr r) = Ok (N.lor (N.land v wm) ones)).
-  { intros x -> Hx. assert (Him : impl_masks r = Some (0xFC, 0x00)) by (destruct Hx; subst r; reflexivity).
-    rewrite (register_masks r s h s' v _ _ Hr Him Hwf Hrun Hl Hv).
-    assert (Hs : reg_masks r = Some (0xFF, 0x00)) by (destruct Hx; subst r; reflexivity).
-    rewrite Hs in Hm. injection Hm as <- <-.
-    pose proof (sweep_bytes _ obp_sweep v Hv) as S. unfold obp_check in S. rewrite (Hobp Hx) in S.
-    cbn [N.eqb negb orb] in S. apply N.eqb_eq in S. rewrite S. reflexivity. }
-  destruct r; try discriminate Hr;
-    try (apply (register_masks _ s h s' v wm ones Hr); [exact Hm | assumption ..]).
-  - apply (Ho R_OBP0 eq_refl). left; reflexivity.
-  - apply (Ho R_OBP1 eq_refl). right; reflexivity.
-Qed.
-
 (* a machine to exhibit things on: a 32 KiB ROM-only image *)
 Definition demo_image : image :=
   mkImage 32768 (fun a => if a =? 327 then 0 else if a =? 328 then 0 else if a =? 329 then 0 else a mod 251).
-
-(* ... and fails there: from power-on, write FF to OBP0, read FC *)
-Theorem register_masks_refuted : ~ register_masks_statement.
-Proof.
-  intros H.
-  destruct (sys_new demo_image true false) as [[c s]| |] eqn:E; [|vm_compute in E; discriminate E ..].
-  assert (X : exists s', bus_run s [BWrite 0xFF48 0xFF] = Ok s' /\ peek s' 0xFF48 = Ok 0xFC).
-  { injection E as _ <-. eexists. split; vm_compute; reflexivity. }
-  destruct X as (s' & Hr & Hp).
-  specialize (H R_OBP0 s [BWrite 0xFF48 0xFF] s' 0xFF 0xFF 0x00 eq_refl eq_refl eq_refl Hr eq_refl).
-  cbn [reg_addr] in H. rewrite Hp in H. assert (L : 0xFF < 256) by (vm_compute; reflexivity).
-  specialize (H L). vm_compute in H. discriminate H.
-Qed.
 
 (* from power-on *)
 Lemma amem_run_point m m' h x : m x = m' x -> amem_run m h x = amem_run m' h x.
